@@ -6,6 +6,14 @@
 -/
 namespace IbcVerif.Chain
 
+def alookup {K V : Type} [DecidableEq K] : List (K × V) → K → Option V
+  | [], _ => none
+  | (k', v) :: l, k => if k' = k then some v else alookup l k
+
+def aerase {K V : Type} [DecidableEq K] : List (K × V) → K → List (K × V)
+  | [], _ => []
+  | (k', v) :: l, k => if k' = k then aerase l k else (k', v) :: aerase l k
+
 structure FMap (K V : Type) where
   entries : List (K × V)
 
@@ -13,18 +21,9 @@ namespace FMap
 variable {K V : Type} [DecidableEq K]
 
 def empty : FMap K V := ⟨[]⟩
-
-def get (m : FMap K V) (k : K) : Option V :=
-  match m.entries.find? (fun e => decide (e.1 = k)) with
-  | some e => some e.2
-  | none => none
-
-def del (m : FMap K V) (k : K) : FMap K V :=
-  ⟨m.entries.filter (fun e => decide (e.1 ≠ k))⟩
-
-def set (m : FMap K V) (k : K) (v : V) : FMap K V :=
-  ⟨(k, v) :: m.entries.filter (fun e => decide (e.1 ≠ k))⟩
-
+def get (m : FMap K V) (k : K) : Option V := alookup m.entries k
+def del (m : FMap K V) (k : K) : FMap K V := ⟨aerase m.entries k⟩
+def set (m : FMap K V) (k : K) (v : V) : FMap K V := ⟨(k, v) :: aerase m.entries k⟩
 def has (m : FMap K V) (k : K) : Bool := (m.get k).isSome
 
 end FMap
